@@ -227,6 +227,9 @@ def runItem (isGen : Bool) (it : Item) (st : St) : Res :=
     let st' := { st with lit := l, trace := tr, item := it }
     if ok then raiseB (it.res.map (pep isGen)) st' else (.raised (pep isGen .stopIter) none, st')
 
+/-- an iterator that "raises" `StopIteration` from `__next__` simply ends -/
+def endOf (o : Option Exc) : Option Exc := if o = some .stopIter then none else o
+
 def hasattrB (b : Beh) (attr : String) : Bool := if attr = "prepare_dump" then b.hasPrepare else true
 
 def openFile (path : Nat) : Mode → St → St
@@ -296,14 +299,14 @@ def exec (env : Env) : Stmt → St → Res
     loopL (fun a s => exec env body { s with attr := a }) st.cur.attrs st
   | .forEach .iterData _ body, st =>
     match loopL (fun f s => exec env body { s with cur := f }) st.rest { st with rest := [] } with
-    | (.normal, st') => raiseB env.b.iterEnd st'
+    | (.normal, st') => raiseB (endOf env.b.iterEnd) st'
     | r => r
   | .forEach .fmtMany _ body, st =>
     match loopL (fun it s =>
         match runItem env.b.fmtIsGen it s with
         | (.normal, s') => exec env body s'
         | r => r) env.b.items st with
-    | (.normal, st') => raiseB (env.b.itemsEnd.map (pep env.b.fmtIsGen)) st'
+    | (.normal, st') => raiseB (endOf (env.b.itemsEnd.map (pep env.b.fmtIsGen))) st'
     | r => r
   | .yield_ .writer _, st => doWrites env.path st.cur.w st
   | .yield_ .user _, st =>
